@@ -55,6 +55,10 @@ class Ident:
                 if d.kind == "assign":
                     return self._of_value(d.value, mi, cfg, d.node, qual, e.id, depth)
                 if d.kind == "unpack":
+                    # `a, b = (x, y)`: project through tuple displays (also produced by helper expansion)
+                    v = _project_expr(d.value, d.path or ())
+                    if v is not None and d.path:
+                        return self._of_value(v, mi, cfg, d.node, qual, e.id, depth + 1)
                     return ("unpack", qual, d.node, d.path)
                 return (d.kind, qual, e.id, d.node)
             vals = {self._of_value(d.value, mi, cfg, d.node, qual, e.id, depth) if d.kind == "assign" else (d.kind, d.node) for d in non_param}
@@ -103,10 +107,21 @@ class Ident:
     def _of_value(self, v, mi, cfg, node, qual, name, depth):
         if isinstance(v, (ast.Name, ast.Attribute)):
             return self.of(v, mi, cfg, node, qual, depth + 1)
+        if isinstance(v, ast.IfExp):
+            # `clone(o) if t is None else t`: one of the two objects; equal arms collapse
+            a = self._of_value(v.body, mi, cfg, node, qual, name, depth + 1)
+            b = self._of_value(v.orelse, mi, cfg, node, qual, name, depth + 1)
+            if a == b:
+                return a
+            kinds = {a[0], b[0]}
+            if kinds <= {"param", "clone", "param|clone"}:
+                return ("param|clone", qual, name if name != "<expr>" else f"ite@{getattr(v, 'lineno', 0)}:{getattr(v, 'col_offset', 0)}")
+            return ("alt", tuple(sorted([a, b], key=str)))
         if isinstance(v, ast.Call) and isinstance(v.func, (ast.Name, ast.Attribute)):
             fq = self.repo.resolve_expr(mi, v.func)
             if fq in ("flax.nnx.clone", "copy.deepcopy"):
-                return ("clone", qual, node)
+                # two clone calls in one statement are two objects: the position of the call is part of the identity
+                return ("clone", qual, node, getattr(v, "lineno", 0), getattr(v, "col_offset", 0))
             if fq and fq.startswith(self.repo.PKG + "."):
                 try:
                     m2, nd = self.repo.lookup(fq)
@@ -116,6 +131,23 @@ class Ident:
                     pass
             return ("call", qual, node)
         return ("value", qual, node)
+
+
+def _project_expr(v, path):
+    """Element of a tuple-valued expression at ``path`` (through tuple displays and conditional expressions); None if not syntactic."""
+    if not path:
+        return v
+    if isinstance(v, (ast.Tuple, ast.List)):
+        i = path[0]
+        if isinstance(i, int) and -len(v.elts) <= i < len(v.elts) and not any(isinstance(x, ast.Starred) for x in v.elts):
+            return _project_expr(v.elts[i], path[1:])
+        return None
+    if isinstance(v, ast.IfExp):
+        a, b = _project_expr(v.body, path), _project_expr(v.orelse, path)
+        if a is None or b is None:
+            return None
+        return ast.copy_location(ast.IfExp(test=v.test, body=a, orelse=b), v)
+    return None
 
 
 def has_base(ident, base) -> bool:
